@@ -56,6 +56,9 @@ RULE = ("one case = one frame of one real mask (or one (N, R, L) triple with all
 # max_attempts is large: segmentation fault instead of a mask or a ValueError (reported to the lead; C04 territory)
 PENDING_FINDINGS: list[str] = ["generator-crashes/VariableDensityPoisson/active-list-overrun"]   # listed as known: by the lead
 MOD = "props.c07"
+# property-level theorems kept in their own modules (fast builds) + the helper lemmas: hygiene-checked and axiom-audited too
+EXTRA_LEAN_MODULES = ["DirectVerif.Lemmas.C07", "DirectVerif.Lemmas.C07Equi", "DirectVerif.Lemmas.C07Magic",
+                      "DirectVerif.Lemmas.C07Bisect", "DirectVerif.Lemmas.C07Random", "DirectVerif.Lemmas.C07RandomProps", "DirectVerif.Lemmas.C07State"]
 DYADIC_R = [2.5, 5.5, 3.25, 7.75, 10.5]
 ENUM_R = [2, 3, 4, 5, 6, 7, 8, 9, 10, 11, 12, 2.5, 5.5]
 ENUM_CF = [0.02, 0.04, 0.06, 0.08]
